@@ -257,6 +257,12 @@ func (p *Prop) writeFragment() {
 	if out == "" {
 		return
 	}
+	for _, a := range os.Args {
+		if strings.HasPrefix(a, "-test.fuzzworker") {
+			// native fuzzing runs the target in worker processes: one fragment each
+			out = strings.TrimSuffix(out, ".json") + fmt.Sprintf(".w%d.json", os.Getpid())
+		}
+	}
 	p.mu.Lock()
 	defer p.mu.Unlock()
 	fr := Fragment{Property: p.ID, Level: p.Level, Rule: p.Rule, Evals: p.evals, Hist: p.hist,
